@@ -24,6 +24,7 @@ EXPLANATION = (
     "tree-building reference on every configuration up to a depth bound (PD, PD2); a named constant (arity-0 function) is popped "
     "by every binary operator (T1 constant)"
     "; the formula and its postfix form are tokenised at any whitespace (X8)"
+    "; X1-sem - format_infix interpreted on a corpus of operand spellings (names ending in e / E, numbers) x every operator symbol: each operator becomes a token of its own; W3 includes disabled engine variables"
 )
 ASSUMPTIONS = ["numpy ufuncs named in the map compute the mathematical function of that name elementwise"]
 FLOORS = {"X8": 2, "PD": 4, "PD2": 4, "T1": 14, "T12": 34, "V6": 34 + 13, "V7": 6, "W2": 1, "W3": 5}
